@@ -190,6 +190,14 @@ def handle : List String → String
     let a : Option Items := if attrs == "~" then none else some (parseItems attrs)
     showTag ((newTag md pyLower (mkCfg m dcls lcls) (ptok name) (parseItems kw) a).bind
       fun t => tagSetMany md t (parseSets sets))
+  | ["pkshare", m, dcls, lcls, pk, kws, name, attrs] =>
+    -- one caller-owned parser_kwargs dictionary (`pk`, `-` = no entry) handed to several builders with keywords `kws`
+    let o (s : String) : Option OnDupArg := if s == "-" then none else some (parseOnDup s)
+    let pols := buildersSharing (o pk) ((kws.splitOn ";").map o)
+    " ## ".intercalate (pols.map fun a =>
+      match parseStartTagArg md pyLower (mkCfg m dcls lcls) a (ptok name) (parseRaw attrs) with
+      | some r => showTag r
+      | none => "raised TypeError")
   | ["fmtsel", items] =>
     match attributeStringSel md ⟨false, id, otherPlaceholder⟩ (parseItems items) with
     | .ok s => "ok " ++ stok s
